@@ -7,7 +7,7 @@
                           subscriber writes Contract.Status of id: confirmed, rejected, successful, failed, or
                           back after a reorg — any status, at any moment, whoever holds or waits for the lock)
      hdisc meta H e       the discipline of Sess.v (callers' discipline + lock protocol) for HS / HAct; a status
-                          change needs none
+                          change needs none, except that a contract whose rows were expired stays rejected
      hreach meta H        H is reached from the empty host by a disciplined history of any length
      usable st            st is pending or active (isGoodForModification's first clause)
      unusable H id        id is a v1 contract of the store whose status is neither
@@ -86,6 +86,87 @@ Theorem c03_unusable_contract_refuses_holder : forall H t e, sownb (hS H) e = tr
   exists r, hstep H (HS e) = (H, hs (SO (ORes r))) /\ r <> Ok tt.
 Proof. exact unusable_refuses_holder. Qed.
 Print Assumptions c03_unusable_contract_refuses_holder.
+
+(** Round 2: the expiry of root rows (ExpireContractSectors / ExpireV2ContractSectors delete the rows of
+   rejected contracts, the cache entry stays) and the status guard of the v2 path.
+
+   Reading of "every contract that has not been superseded by a renewal": a contract whose formation was
+   never confirmed and whose root rows the host has deleted is given up — the host holds no list for it any
+   more; C03 then asks that the host does not modify it (it signs nothing that commits to a list it does not
+   persist).  The model contains fixes/C03-v2-rejected-contract-not-revisable.patch; the code before it is
+   the _refuted statement below.
+     hexp H       the contracts whose rows an expiry has deleted
+     hreal H      what the database holds: hS H with those rows erased
+     is_rej H id  the status of id is rejected *)
+
+(* for every contract the host has not given up and that is not superseded by a renewal: the persisted list
+   is the served list, and the stored revision commits to it — in every state reached by handler edits,
+   waiters, payments, renewals, status changes and expiries in any order *)
+Theorem c03_lists_identical_with_status_changes_and_expiry : forall meta H id c,
+  hreach meta H -> mem id (hexp H) = false ->
+  alookup id (t1 (dbs (hreal H))) = Some c \/ alookup id (t2 (dbs (hreal H))) = Some c ->
+  rto c = None ->
+  tbl_list (rows c) = cache_get (sb (hS H)) id /\
+  fsize c = sector_size * nlen (cache_get (sb (hS H)) id) /\ mroot c = meta (cache_get (sb (hS H)) id).
+Proof. exact live_lists_identical. Qed.
+Print Assumptions c03_lists_identical_with_status_changes_and_expiry.
+
+(* an expiry deletes rows of rejected contracts only and changes nothing else; a contract whose rows are gone
+   is a rejected contract in every reachable state (hdisc: the status of such a contract does not come back) *)
+Theorem c03_expiry_deletes_rejected_only : forall H id,
+  hS (fst (hstep H HExpire)) = hS H /\ hst (fst (hstep H HExpire)) = hst H /\
+  (mem id (hexp (fst (hstep H HExpire))) = true -> mem id (hexp H) = true \/ is_rej H id = true).
+Proof. exact (expire_only_rejected (fun _ => 0)). Qed.
+Print Assumptions c03_expiry_deletes_rejected_only.
+
+Theorem c03_expired_contract_is_rejected : forall meta H id,
+  hreach meta H -> mem id (hexp H) = true -> is_rej H id = true.
+Proof. exact expired_is_rejected. Qed.
+Print Assumptions c03_expired_contract_is_rejected.
+
+(* ... and a rejected v2 contract is not modified (the patch): LockV2Contract reports it not revisable,
+   ReviseV2Contract and RenewV2Contract — with a store failure at any statement — refuse and change nothing;
+   for v1 this is c03_unusable_contract_refuses_lock / _holder *)
+Theorem c03_rejected_v2_contract_not_revisable : forall H t id H' r rn rv l,
+  hstep H (HS (SAcq2 t id)) = (H', hs (SO (OLock2 (Ok (r, rn, rv, l))))) -> is_rej H id = true -> rv = false.
+Proof. exact rejected2_not_revisable. Qed.
+Print Assumptions c03_rejected_v2_contract_not_revisable.
+
+Theorem c03_rejected_v2_contract_refuses_revision : forall H t e, sownb (hS H) e = true ->
+  (exists id c l m a b f, e = SOp t (Revise2 id c l m a b f) /\ unusable2 H id) \/
+  (exists old new c m f, (e = SOp t (Renew2 old new c m true f) \/ e = SRenewH t true (Renew2 old new c m true f)) /\
+                         unusable2 H old) ->
+  exists r, hstep H (HS e) = (H, hs (SO (ORes r))) /\ r <> Ok tt.
+Proof. exact rejected2_refuses. Qed.
+Print Assumptions c03_rejected_v2_contract_refuses_revision.
+
+(* The code BEFORE the patch (the v2 path reads no status: Model.v's Revise2 on what the database holds):
+   form a v2 contract, append two roots, the formation is never confirmed, the contract is rejected and its
+   rows are deleted; an append of a third root is accepted — the host persists [3] for a contract, not
+   superseded by any renewal, whose signed revision commits to three sectors and for which it serves
+   [1; 2; 3].  Witnessed on the real RHP4 server by TestVerifC03V4Rejected (monitor rejected-contract-revised);
+   a free instead of the append panics the host ("negative stat value"). *)
+Theorem c03_rejected_v2_contract_revised_refuted :
+  exists evs id o c,
+    hdisc_run meta0 hinit evs /\ is_rej (hruns hinit evs) id = true /\ mem id (hexp (hruns hinit evs)) = true /\
+    snd (step (hreal (hruns hinit evs)) o) = ORes (Ok tt) /\
+    alookup id (t2 (dbs (fst (step (hreal (hruns hinit evs)) o)))) = Some c /\ rto c = None /\
+    tbl_list (rows c) <> cache_get (fst (step (hreal (hruns hinit evs)) o)) id /\
+    fsize c <> sector_size * nlen (tbl_list (rows c)) /\
+    mroot c <> meta0 (tbl_list (rows c)).
+Proof. exact rejected_v2_revised_refuted. Qed.
+Print Assumptions c03_rejected_v2_contract_revised_refuted.
+
+(* non-vacuity of the round-2 statements: the same history on the model with the guard — not revisable,
+   the append refused, the database holds no rows, the cache still [1; 2] *)
+Example c03_rejected_v2_nonvacuous :
+  hdisc_run meta0 hinit ex_rej2 /\
+  let H := hruns hinit ex_rej2 in
+  snd (hstep H (HS (SAcq2 1 7))) = hs (SO (OLock2 (Ok (1, false, false, [1; 2])))) /\
+  hstep (fst (hstep H (HS (SAcq2 1 7)))) (HS (SOp 1 ex_rej2_append))
+    = (fst (hstep H (HS (SAcq2 1 7))), hs (SO (ORes (Err EInvalid)))) /\
+  snd (hstep H (HS (SOp 0 (Look2 7)))) = hs (SO (OLook true [] [1; 2] 1 (2 * sector_size) (meta0 [1; 2]) None None)).
+Proof. exact (conj ex_rej2_disc ex_rej2_patched). Qed.
 
 (* non-vacuity: session 1 gets the lock of pending contract 7 and appends a root, session 2 queues, the
    contract is rejected: the holder's next ReviseContract and the waiter's Lock are refused, the list and
